@@ -6,6 +6,7 @@ package main
 
 import (
 	"bufio"
+	"crypto/sha256"
 	"encoding/json"
 	"fmt"
 	"os"
@@ -21,7 +22,12 @@ import (
 	"verif/sim"
 )
 
-const root = "/verif"
+var root = func() string {
+	if r := os.Getenv("VERIF_ROOT"); r != "" {
+		return r
+	}
+	return "/verif"
+}()
 
 func goEnv() []string {
 	env := os.Environ()
@@ -61,16 +67,38 @@ func main() {
 
 // buildEngine compiles the engine's test binary against /repo's current tree.
 func buildEngine(pkg string, race bool) string {
-	out := filepath.Join(root, "bin", "engines", pkg+".test")
+	// VERIF_REPO points the build at another checkout of the repository (used
+	// for evaluating seeded changes in scratch worktrees without touching
+	// /repo); the registered checks never set it.
+	repo := os.Getenv("VERIF_REPO")
+	tag := ""
+	if repo != "" {
+		tag = fmt.Sprintf("-%x", sha256.Sum256([]byte(repo)))[:9]
+	}
+	dir := filepath.Join(root, "bin", "engines"+tag)
+	out := filepath.Join(dir, pkg+".test")
 	args := []string{"test", "-c", "-tags", "verif", "-o", out}
 	if race {
-		out = filepath.Join(root, "bin", "engines", pkg+".race.test")
+		out = filepath.Join(dir, pkg+".race.test")
 		args = []string{"test", "-c", "-race", "-tags", "verif", "-o", out}
 	}
+	os.MkdirAll(dir, 0o755)
+	src := "/repo"
+	if repo != "" {
+		src = repo
+		gm, err := os.ReadFile(filepath.Join(root, "go.mod"))
+		if err != nil {
+			die(2, "go.mod: %v", err)
+		}
+		mf := filepath.Join(dir, "go.mod")
+		os.WriteFile(mf, []byte(strings.Replace(string(gm), "=> /repo", "=> "+repo, 1)), 0o644)
+		gs, _ := os.ReadFile(filepath.Join(root, "go.sum"))
+		os.WriteFile(filepath.Join(dir, "go.sum"), gs, 0o644)
+		args = append(args, "-modfile="+mf)
+	}
 	args = append(args, "./"+pkg)
-	os.MkdirAll(filepath.Dir(out), 0o755)
 	// go.sum follows the repository's
-	if b, err := os.ReadFile("/repo/go.sum"); err == nil {
+	if b, err := os.ReadFile(filepath.Join(src, "go.sum")); err == nil && repo == "" {
 		cur, _ := os.ReadFile(filepath.Join(root, "go.sum"))
 		if !strings.Contains(string(cur), strings.TrimSpace(string(b))) {
 			os.WriteFile(filepath.Join(root, "go.sum"), append(b, cur...), 0o644)
